@@ -56,7 +56,7 @@ func startPython(path string) (*pyProc, error) {
 	if path == "" {
 		return nil, fmt.Errorf("python3 not found")
 	}
-	cmd := exec.Command(path, "-S", fw.Root+"/engine/internal/c08/pyoracle.py")
+	cmd := exec.Command(path, "-S", fw.EngineDir()+"/internal/c08/pyoracle.py")
 	stdin, err := cmd.StdinPipe()
 	if err != nil {
 		return nil, err
